@@ -50,6 +50,7 @@ package announce
 //@ func (*Receiver).announceCheck
 //@   property C16 C09
 //@   requires recvOK(r) && !held(r.announceMutex)
+//@   modifies state(r.announceCache)
 //@   ghost allowed := true
 //@   at call allowPeer#1: after ghost allowed := result
 //@   ensures-local !allowed ==> result != nil && count("call:update") == 0 && count("lock:announceMutex") == 0
